@@ -50,6 +50,8 @@ def check(ctx: Ctx) -> None:
     check_input_typed_containers(ctx, 'C12.f', [fn], floor=1)
     from ..idioms import check_accumulators_initialised
     check_accumulators_initialised(ctx, 'C12.g', [WF], floor=1)
+    from ..idioms import check_no_tolerance_fast_paths
+    check_no_tolerance_fast_paths(ctx, 'C12.h', [WF], floor=1)
     ctx.rule('C12.a', 'every noise/gain quotient of doWF is noiseVar / (Es * gain): Es enters exactly once (term normal forms)', floor=3)
     from .. import terms as T
     gains = {'vtChannels'}
